@@ -64,7 +64,9 @@ Expect(e) ==
            \o Chk(~h.ok \/ (MetaHas(h.meta, KeySchema) /\ MetaHas(h.meta, KeyCodec) /\ MetaGet(h.meta, KeyCodec) = e.codecBytes), "header metadata lacks schema or names the wrong codec"),
            <<>>>>
     [] e.op = "enc_encode" ->
-         LET p2 == Append(pend, IF e.kind = "empty" THEN <<>> ELSE EncRec(e.p)) IN
+         LET p2 == Append(pend, IF e.kind = "empty" THEN <<>>
+                                ELSE IF e.kind = "wide" THEN EncRec(e.p) \o [i \in 1..39 |-> 0]   \* {P: bytes} followed by 39 longs that are 0
+                                ELSE EncRec(e.p)) IN
          IF Buffered(p2) >= e.block THEN <<BlockFails(e, ConcatAll(p2), Len(p2)), <<>>>>
          ELSE <<Chk(e.delta = <<>>, "bytes written although the block size is not reached"), p2>>
     [] e.op = "enc_flush" ->
